@@ -40,7 +40,8 @@ SHARD_TIMEOUT = {"quick": 300, "thorough": 1500}
 
 
 def all_cases(tier: str, seed: int):  # noqa: ANN201
-    yield from treecheck.cases("c06", tier, seed, 5000, 80000, extra=lambda: itertools.chain(treefam.deadline_nests(), treefam.deadline_histories()),
+    yield from treecheck.cases("c06", tier, seed, 5000, 80000, extra=lambda: itertools.chain(treefam.deadline_nests(), treefam.deadline_histories(),
+                                                                  treefam.ninf_deadlines()),
                                uvloop=False)
 
 
